@@ -145,13 +145,13 @@ Definition check_901 (fs : list field) : verdict :=
       let specb := res_bind spec (fun m => ROk (encode_msg m)) in
       let mach := j2p_machine disallow sc root j in
       let trig := doc_triggers sc root j in
-      (* self-check of the model: on the strict domain the machine as coded yields the specified bytes (theorem sax_refines_spec) *)
+      (* self-check of the model: on the strict domain the machine as coded yields the specified bytes (theorem sax_refines_spec; depth bound 128 there, the stack limit decides here) *)
       let consistent :=
         match denote_top true disallow sc root j with
         | ROk m =>
           match mach with
           | OOk b => bytes_eqb b (encode_msg m) && match spec with ROk m' => bytes_eqb (encode_msg m') b | _ => false end
-          | OErr => negb (Nat.ltb (json_depth j) 120)
+          | OErr => negb (Nat.ltb (json_depth j) 129)
           | _ => false
           end
         | _ => true
@@ -168,7 +168,7 @@ Definition check_901 (fs : list field) : verdict :=
             else deviation 1 status out mach trig specb
           | None => deviation 2 status out mach trig specb
           end
-        else if (status =? 1) && negb (Nat.ltb (json_depth j) 120) && same_outcome status out mach then VSkip  (* converter's stack limit *)
+        else if (status =? 1) && negb (Nat.ltb (json_depth j) 129) && same_outcome status out mach then VSkip  (* converter's stack limit *)
         else deviation 4 status out mach trig specb
       | RErr =>
         if status =? 1 then VOk else deviation 5 status out mach trig specb
